@@ -87,4 +87,28 @@ fn c16_b_complete_body_with_length() {
     std::mem::forget(r);
 }
 
+/// concrete-input variants (every byte fixed): CBMC executes the real parser on one input per
+/// truncation point — a bounded stand-in of the weakest kind, kept because the symbolic
+/// versions above exceed 20 min.
+macro_rules! truncated_fixed {
+    ($name:ident, $k:expr) => {
+        #[kani::proof]
+        #[kani::unwind(48)]
+        fn $name() {
+            let raw = *b"HTTP/1.1 200 OK\r\nContent-Length: 3\r\n\r\nabc";
+            let r = parse_response(&raw[..38 + $k]);
+            match r {
+                Ok(resp) => {
+                    assert!(resp.body.len() >= 3);
+                    std::mem::forget(resp);
+                }
+                Err(e) => std::mem::forget(e),
+            }
+        }
+    };
+}
+truncated_fixed!(c16_b_truncated_fixed_0, 0);
+truncated_fixed!(c16_b_truncated_fixed_2, 2);
+truncated_fixed!(c16_b_complete_fixed_3, 3);
+
 include!("/verif/kani/gen/playback_distributed_http_client.rs");
